@@ -70,6 +70,7 @@ class Collector:
         self.traces = 0              # executions that ran on the implementation
         self.extra = {}              # named integer counters
         self.notes = []              # caps hit etc.
+        self.payload = []            # arbitrary picklable data returned by workers
 
     # ---- recording API
     def evaluated(self, n=1):
@@ -119,6 +120,7 @@ class Collector:
             self.extra[k] = self.extra.get(k, 0) + v
         for n in other.notes:
             self.note(n)
+        self.payload.extend(other.payload)
 
 
 def _worker_entry(args):
